@@ -26,7 +26,7 @@ ASSUMPTIONS = [
 ]
 BUDGET = {
     "quick": {"examples": 400, "workers": 8, "time_cap": 70},
-    "thorough": {"examples": 15000, "workers": 14, "time_cap": 1500},
+    "thorough": {"examples": 15000, "workers": 14, "time_cap": 900},
 }
 CLI_CREATORS = {"TorrentFile", "Assembler2", "Assembler3"}
 
